@@ -73,6 +73,17 @@ inductive Method | kdf (l : Level) | raw | unprotected
 inductive KeyRef | kdf (l : Level) (detail : Str) | raw | unprotected
   deriving DecidableEq, Repr, Inhabited
 
+/-- second half of `KdfMethod::decode`: the method name and the third piece of `splitn(3, ':')`,
+    which is cut at its first `?` into level and detail -/
+def kdfLevelDetail (method rest : Str) : Except Err (Level × Str) :=
+  let ld := splitOnce 0x3F rest
+  let detail := ld.2.getD []
+  if method = sArgon2i then
+    match Level.fromStr ld.1 with
+    | some l => .ok (l, if detail.isEmpty then [] else 0x3F :: detail)
+    | none => .error .unsupported
+  else .error .unsupported
+
 /-- `KdfMethod::decode` (`splitn(3, ':')`, then `splitn(2, '?')` on the third piece) -/
 def kdfDecode (s : Str) : Except Err (Level × Str) :=
   let p1 := splitOnce 0x3A s
@@ -80,13 +91,7 @@ def kdfDecode (s : Str) : Except Err (Level × Str) :=
     let p2 : Str × Option Str := match p1.2 with
       | some r => splitOnce 0x3A r
       | none => ([], none)
-    let ld := splitOnce 0x3F (p2.2.getD [])
-    let detail := ld.2.getD []
-    if p2.1 = sArgon2i then
-      match Level.fromStr ld.1 with
-      | some l => .ok (l, if detail.isEmpty then [] else 0x3F :: detail)
-      | none => .error .unsupported
-    else .error .unsupported
+    kdfLevelDetail p2.1 (p2.2.getD [])
   else .error .unsupported
 
 /-- `KdfMethod::encode(Some(detail))` -/
@@ -255,6 +260,11 @@ def lookup {β : Type} (k : Str) : List (Str × β) → Option β
   | [] => none
   | (k', v) :: rest => if k' = k then some v else lookup k rest
 
+/-- `if let Some(method) = method { if !wrap_ref.compare_method(&method) { … mismatch … } }` -/
+def methodMismatch (ref : KeyRef) : Option Method → Bool
+  | some m => !ref.compareMethod m
+  | none => false
+
 /-- `open_db` (the `version` row is always "1" in stores written by this code) -/
 def openDb {I : Type} (C : Crypto) (st : Store C I) (method : Option Method) (pass : PassKey) (profile : Option Str) :
     Except Err (Handle C) :=
@@ -262,7 +272,7 @@ def openDb {I : Type} (C : Crypto) (st : Store C I) (method : Option Method) (pa
   match KeyRef.parse st.keyRef with
   | .error e => .error e
   | .ok ref =>
-    if (match method with | some m => !ref.compareMethod m | none => false) then .error .input  -- "Store key method mismatch"
+    if methodMismatch ref method then .error .input          -- "Store key method mismatch"
     else
       match ref.resolve C pass with
       | .error e => .error e
@@ -282,21 +292,24 @@ def openStore {I : Type} (C : Crypto) (fs : Fs C I) (method : Option Method) (pa
   | .empty => (fs, .error .backend)                   -- no such table: config
   | .store st => (fs, openDb C st method pass profile)
 
+/-- `init_db` on the file `pool(true)` has just created (or found without a `config` table):
+    on an `init_keys` error the empty file stays behind -/
+def createStore {I : Type} (C : Crypto) (noItems : I) (m : Method) (pass : PassKey) (profile : Option Str) (rnd : Rnd C) :
+    Fs C I × Except Err (Handle C) :=
+  let name := profile.getD rnd.profileName
+  match initKeys C m pass rnd with
+  | .error e => (.empty, .error e)
+  | .ok r =>
+    (.store { keyRef := r.2.1, defaultProfile := name, profiles := [(name, r.2.2.1)], items := noItems },
+     .ok { storeKey := r.1, profile := name, pk := r.2.2.2 })
+
 /-- `SqliteStoreOptions::provision`; `noItems` is the empty item table -/
 def provision {I : Type} (C : Crypto) (noItems : I) (fs : Fs C I) (m : Method) (pass : PassKey) (profile : Option Str)
     (recreate : Bool) (rnd : Rnd C) : Fs C I × Except Err (Handle C) :=
   -- `try_remove_file` first, before anything is validated
-  let fs := if recreate then Fs.absent else fs
-  match fs with
-  | .store st => (fs, openDb C st (some m) pass profile)       -- config table found: `open_db`
-  | _ =>
-    -- `pool(true)` has created the file by now
-    let name := profile.getD rnd.profileName
-    match initKeys C m pass rnd with
-    | .error e => (.empty, .error e)
-    | .ok (sk, ref, blob, pk) =>
-      (.store { keyRef := ref, defaultProfile := name, profiles := [(name, blob)], items := noItems },
-       .ok { storeKey := sk, profile := name, pk := pk })
+  match (if recreate then Fs.absent else fs) with
+  | .store st => (.store st, openDb C st (some m) pass profile)       -- config table found: `open_db`
+  | _ => createStore C noItems m pass profile rnd
 
 /-- wrapped keys re-wrapped under `sk'`: `load_key` with the handle's store key, `encode_profile_key` with the new one -/
 def rewrap (C : Crypto) (sk sk' : Option C.Key) (nonce : Nat → Bytes) : Nat → List (Str × C.Blob) → Except Err (List (Str × C.Blob))
